@@ -719,3 +719,71 @@ def header_iff_empty(ctx, rid, f, is_header_write, stream_field):
                                     is_blocker=is_header_write)
                     ctx.check(rid, r is None, f.name, 'header:skipped-on-empty-file', f.where(e),
                               'an empty file always receives the header before OpenForWriteIfNeeded succeeds')
+
+
+def linear(f, d, env=None, depth=0):
+    """Linear normal form {symbol: coefficient, 1: constant} of an integer / pointer expression:
+    +, -, casts, sizeof and constants are interpreted, everything else is an opaque symbol; names
+    bound in env (dstr of an lvalue -> expression) are substituted."""
+    env = env or {}
+    out = {}
+
+    def add(sym, c):
+        out[sym] = out.get(sym, 0) + c
+        if out[sym] == 0:
+            del out[sym]
+    if isinstance(d, dict) and d.get('k') == 'cast':
+        return linear(f, d['e'], env, depth)
+    d = strip(d)
+    if not isinstance(d, dict):
+        return {'?': 1}
+    c = const_value(d)
+    if c is not None:
+        return {1: c} if c else {}
+    if d.get('k') == 'sizeof' and d.get('v') is not None:
+        return {1: d['v']}
+    if d.get('k') == 'bin' and d['op'] in ('+', '-'):
+        l = linear(f, d['l'], env, depth)
+        r = linear(f, d['r'], env, depth)
+        for k, v in l.items():
+            add(k, v)
+        for k, v in r.items():
+            add(k, v if d['op'] == '+' else -v)
+        return out
+    key = dstr(d)
+    if key in env and depth < 6:
+        return linear(f, env[key], env, depth + 1)
+    if d.get('k') == 'var' and d.get('vk') == 'local' and depth < 6:
+        init = f.single_def(d['n'])
+        # a local computed from something that was reassigned since (a key of env) stays a symbol
+        if init is not None and not any(k in dstr(init) for k in env):
+            return linear(f, init, env, depth + 1)
+    return {key: 1}
+
+
+def block_env(f, ev):
+    """lvalue -> last value assigned to it earlier in ev's basic block."""
+    env = {}
+    for e in f.blocks[ev['_b']]['ev'][:ev['_i']]:
+        if e['k'] == 'asg' and e.get('op') == '=':
+            env[dstr(strip(e['l']))] = e.get('r')
+    return env
+
+
+def reached_only_through(ctx, rid, f, is_event, allowed_edge, what, construct):
+    """Every path from the function entry to an event satisfying is_event takes at least one branch
+    edge for which allowed_edge(list of (key, polarity, atom)) holds; reports a witness otherwise.
+    (The converse of a guard: nothing *else* leads there.)"""
+    tg = [e for e in f.events() if is_event(e)]
+    ok_all = True
+    for t in tg:
+        r = f.find_path(None, lambda x: x is t, from_succ=f.entry, sensitive=False,
+                        edge_ok=lambda b, i, s2: not allowed_edge(f.edge_facts(b, i)))
+        ok = r is None
+        ok_all &= ok
+        ctx.check(rid, ok, f.name, construct, f.where(t), '%s — in %s' % (what, f.name),
+                  witness=None if ok else {'blocks': r[0]})
+    if not tg:
+        ctx.violation(rid, f.name, construct + ':no-site', f.loc, '%s — no such site in %s' % (what, f.name))
+        return False
+    return ok_all
